@@ -1,2 +1,17 @@
 -- Root of the `SpdxVerif` library: model, specifications, lemmas, property theorems, audits.
-import SpdxVerif.Model.Api
+import SpdxVerif.Model.Cost
+import SpdxVerif.Audit.C01
+import SpdxVerif.Audit.C02
+import SpdxVerif.Audit.C03
+import SpdxVerif.Audit.C04
+import SpdxVerif.Audit.C05
+import SpdxVerif.Audit.C06
+import SpdxVerif.Audit.C07
+import SpdxVerif.Audit.C08
+import SpdxVerif.Audit.C09
+import SpdxVerif.Audit.C10
+import SpdxVerif.Audit.C11
+import SpdxVerif.Audit.C12
+import SpdxVerif.Audit.C13
+import SpdxVerif.Audit.C14
+import SpdxVerif.Audit.C15
